@@ -69,6 +69,8 @@ structure Style where
   minH : Dim          -- auto = initial value (↦ 0)
   maxH : Dim          -- auto = none (the code stores +Inf px)
   sizing : Sizing
+  lines : Nat         -- number of line boxes of text the box contains (only for boxes without block children)
+  lineH : Rat         -- height of each of them (line-height; Ahem text, one strut per line)
   deriving Repr, Inhabited
 
 inductive Box where
@@ -256,6 +258,8 @@ structure RStyle where
   minH : Rat
   maxH : Option Rat
   isRoot : Bool
+  lines : Nat
+  lineH : Rat
   deriving Repr, Inhabited
 
 inductive RBox where
@@ -270,7 +274,8 @@ def resolveStyle (cbW : Rat) (cbH : MF) (x : Rat) (isRoot : Bool) (s : Style) : 
             { ml := u.ml, mr := u.mr, width := u.width }
   { x := x, ml := h.ml.V, mr := h.mr.V, mt := u.mt.V, mb := u.mb.V,
     pl := u.pl, pr := u.pr, pt := u.pt, pb := u.pb, bl := u.bl, br := u.br, bt := u.bt, bb := u.bb,
-    width := h.width.V, height := u.height, minH := u.minH, maxH := u.maxH, isRoot := isRoot }
+    width := h.width.V, height := u.height, minH := u.minH, maxH := u.maxH, isRoot := isRoot,
+    lines := s.lines, lineH := s.lineH }
 
 /-- `box.ContentBoxX()` -/
 def RStyle.contentX (r : RStyle) : Rat := r.x + r.ml + r.pl + r.bl
@@ -353,6 +358,12 @@ def vStart (r : RStyle) (y0 : Rat) (adjIn : List Rat) : VLoop :=
   if r.cwc then { y := y0, adj := p0, aliased := true, p := p0 }
   else { y := (y0 + collapseMargin p0 - r.mt) + r.mt + r.pt + r.bt, adj := [], aliased := false, p := p0 }
 
+/-- the loop when the only child is the LineBox holding the text: lineBoxLayout adds the collapsed
+    adjoining margins to positionY, stacks the lines, and the caller resets `adjoiningMargins` to a
+    fresh empty list (`*thisBoxAdjoiningMargins` is not touched) -/
+def vText (r : RStyle) (st : VLoop) : VLoop :=
+  { y := st.y + collapseMargin st.adj + (r.lines : Rat) * r.lineH, adj := [], aliased := false, p := st.p }
+
 /-- blockContainerLayout after the children loop (`leaf`: no in-flow child was laid out) -/
 def vFinish (r : RStyle) (y0 : Rat) (adjIn : List Rat) (leaf : Bool) (l : VLoop) (kids : List LTree) : VRes :=
   -- if collapsingWithChildren { box.PositionY += collapseMargin(*thisBoxAdjoiningMargins) - MarginTop }
@@ -380,8 +391,9 @@ mutual
       to `y0` by the parent, with `*adjoiningMargins = adjIn` -/
   def vbox (y0 : Rat) (adjIn : List Rat) : RBox → VRes
     | .mk r cs =>
-      let lk := vlist (vStart r y0 adjIn) cs
-      vFinish r y0 adjIn cs.isEmpty lk.1 lk.2
+      -- text is only modelled in boxes without block children (no anonymous block boxes)
+      let lk := if r.lines = 0 then vlist (vStart r y0 adjIn) cs else (vText r (vStart r y0 adjIn), [])
+      vFinish r y0 adjIn (cs.isEmpty && r.lines == 0) lk.1 lk.2
   /-- the children loop: inFlowLayout for each child; returns the final state and `newChildren` -/
   def vlist (st : VLoop) : List RBox → VLoop × List LTree
     | [] => (st, [])
@@ -390,6 +402,30 @@ mutual
       let y := if r.through then st.y else r.tree.box.borderBottom
       let rest := vlist { y := y, adj := r.adj ++ [r.tree.box.mb], aliased := false,
                           p := if st.aliased then r.pOut else st.p } cs
+      (rest.1, r.tree :: rest.2)
+end
+
+/-! ### the same computation in the order the code runs it
+
+  blockLevelLayout resolves the percentages and the width of a box when the PARENT's loop reaches it
+  (containing block = the parent's box: its used `Width`, its resolved — not laid-out — `Height`, its
+  `ContentBoxX()`), then lays it out vertically.  `ibox`/`ilist` interleave the two passes per box
+  exactly like that; `passes_commute` (WR/Props/C10.lean) proves they equal `vbox ∘ resolveBox`. -/
+
+mutual
+  def ibox (cbW : Rat) (cbH : MF) (x : Rat) (isRoot : Bool) (y0 : Rat) (adjIn : List Rat) : Box → VRes
+    | .mk s cs =>
+      let r := resolveStyle cbW cbH x isRoot s
+      let lk := if r.lines = 0 then ilist r.width r.height r.contentX (vStart r y0 adjIn) cs
+                else (vText r (vStart r y0 adjIn), [])
+      vFinish r y0 adjIn (cs.isEmpty && r.lines == 0) lk.1 lk.2
+  def ilist (cbW : Rat) (cbH : MF) (x : Rat) (st : VLoop) : List Box → VLoop × List LTree
+    | [] => (st, [])
+    | c :: cs =>
+      let r := ibox cbW cbH x false st.y st.adj c
+      let y := if r.through then st.y else r.tree.box.borderBottom
+      let rest := ilist cbW cbH x { y := y, adj := r.adj ++ [r.tree.box.mb], aliased := false,
+                                    p := if st.aliased then r.pOut else st.p } cs
       (rest.1, r.tree :: rest.2)
 end
 
